@@ -1,4 +1,4 @@
-\* behaviour generation (exhaustive to MaxLen, or -simulate for deeper walks)
-CONSTANTS MaxNow = 24  MaxLen = 6  Dedupe = 10  WeakC = ""
+\* behaviour generation (-simulate; checks/C07.py adds systematic tours)
+CONSTANTS MaxNow = 80  MaxLen = 6  MaxEdits = 2  Dedupe = 10  VD = 15  WeakC = ""
 SPECIFICATION Spec
 INVARIANTS GenPrint
